@@ -91,6 +91,26 @@ pub(crate) fn add(ctx: &mut TulispContext) {
 
     #[crate_fn(add_func = "ctx", name = "mod")]
     fn impl_mod(dividend: TulispObject, divisor: TulispObject) -> Result<TulispObject, Error> {
-        binary_ops!(std::ops::Rem::rem, i64::checked_rem)(&dividend, &divisor)
+        // The result takes the sign of the divisor (floored division).
+        fn float_mod(a: &f64, b: &f64) -> f64 {
+            let rem = a % b;
+            if rem != 0.0 && (rem < 0.0) != (*b < 0.0) {
+                rem + b
+            } else {
+                rem
+            }
+        }
+        fn int_mod(a: i64, b: i64) -> Option<i64> {
+            if b == -1 {
+                return Some(0);
+            }
+            let rem = a.checked_rem(b)?;
+            if rem != 0 && (rem < 0) != (b < 0) {
+                Some(rem + b)
+            } else {
+                Some(rem)
+            }
+        }
+        binary_ops!(float_mod, int_mod)(&dividend, &divisor)
     }
 }
